@@ -43,6 +43,18 @@ def main():
         checks = [a for a in args[args.index("--check") + 1:] if not a.startswith("--")]
     src = f"/tmp/seed_out/{sid}"
     dst = os.path.join(VERIF, "seeded", sid)
+    if "--detect-only" in args:
+        meta = json.load(open(os.path.join(dst, "meta.json")))
+        if not meta.get("confirmation", {}).get("confirmed"):
+            raise SystemExit(f"{sid} is not confirmed")
+        from . import mutate
+        det = meta.setdefault("detection", {})
+        for c in checks:
+            res = mutate.run(c, os.path.join(dst, "patch.diff"))
+            det[c] = dict(detected=res["detected"], exit=res["exit"], wall_s=res["wall_s"], lines=res["lines"][:6], tier="quick")
+            print(sid, c, "detected" if res["detected"] else f"MISSED (exit {res['exit']})", res["lines"][1:2], res.get("tail", "")[-300:], res.get("err", "")[-300:])
+        json.dump(meta, open(os.path.join(dst, "meta.json"), "w"), indent=1)
+        return
     if not os.path.isdir(src) and os.path.isdir(dst):
         src = dst
     meta = json.load(open(os.path.join(src, "meta.json")))
